@@ -6,6 +6,8 @@ import Driver.VP8L
 import Driver.LTransform
 import Driver.Alpha
 import Driver.Import
+import Driver.VP8
+import Driver.AnimEnc
 /-
   webpdrv — line protocol: one operation per input line (`op arg arg …`), one canonical
   output line per operation.  Unknown or malformed operations answer `bad-op` (never a default).
@@ -19,7 +21,9 @@ def dispatch (line : String) : String :=
            <|> Driver.VP8L.handle op args
            <|> Driver.LTransform.handle op args
            <|> Driver.Alpha.handle op args
-           <|> Driver.Import.handle op args) with
+           <|> Driver.Import.handle op args
+           <|> Driver.VP8.handle op args
+           <|> Driver.AnimEnc.handle op args) with
     | some r => r
     | none => "bad-op"
 
